@@ -113,10 +113,19 @@ def checkC06 (tti : Option Nat) (g : Ghost) (kv : Nat × Option Nat) : Bool :=
     | some ge => decide (g.now < ge.tAcc + d)
     | none => false
 
+/-- Observations after which a case is not judged any further by the lookup oracles: an
+internal panic (that is C08's business; the harness ends the case there) and operations
+the cache kind does not have. -/
+def stops : Obs → Bool
+  | .panic _ => true
+  | .badOp => true
+  | _ => false
+
 def lookupOracle (kind : Kind) (check : Ghost → Nat × Option Nat → Bool) : Ghost → Trace → Bool
   | _, [] => true
   | g, (op, obs) :: rest =>
-    (yields op obs).all (check g) && lookupOracle kind check (ghostStep kind g op obs) rest
+    if stops obs then true
+    else (yields op obs).all (check g) && lookupOracle kind check (ghostStep kind g op obs) rest
 
 def oracleC01 (kind : Kind) (t : Trace) : Bool := lookupOracle kind checkC01 {} t
 def oracleC05 (kind : Kind) (ttl : Option Nat) (t : Trace) : Bool :=
